@@ -39,7 +39,8 @@ impl Report {
         Report { evaluations: 0, nontrivial: 0, rule: rule.into(), bound: bound.into(), violations: vec![], samples: vec![] }
     }
     pub fn violation(&mut self, case: &str, what: &str, input: String, expected: String, actual: String) {
-        if self.violations.len() < 5 {
+        // at most 3 samples per case id (so that one failing case - e.g. a listed known finding - cannot crowd out another), 15 in total
+        if self.violations.len() < 15 && self.violations.iter().filter(|v| v.0 == case).count() < 3 {
             self.violations.push((case.into(), what.into(), input, expected, actual));
         }
     }
